@@ -12,7 +12,8 @@ INTERP_ANG_TOL = 5e-6  # pyquaternion blends close quaternions linearly: up to ~
 
 
 def _close(a, b, tol=POS_TOL):
-    return all(abs(x - y) <= tol * max(1.0, abs(y)) for x, y in zip(a, b))
+    """Absolute tolerance with a small magnitude-dependent part (double rounding at map coordinates ~1e5 m)."""
+    return all(abs(x - y) <= tol * (1.0 + 1e-3 * abs(y)) for x, y in zip(a, b))
 
 
 def expected_tracked(actor, i, samples):
@@ -64,6 +65,7 @@ class C16Monitor(X.Monitor):
                     evaluation_task=R["EvaluationTask"].SENSING,
                     label_converter=conv,
                     frame_id=R["FrameID"].BASE_LINK if frame_name == "base_link" else R["FrameID"].MAP,
+                    load_raw_data=bool(ctx.plan["storage"].get("raw")),
                 )
             except Exception as e:  # noqa
                 ctx.violate("C16", "load_succeeds", "sensing load raised %s" % type(e).__name__, {"error": str(e)[:200]})
